@@ -147,6 +147,13 @@ def subst(node, env: Dict[str, ast.AST], shadow: frozenset = frozenset()):
     n = type(node)(**vals)
     if hasattr(node, "lineno"):
         ast.copy_location(n, node)
+    # a callable value that has just become a lambda and is applied on the spot (`next_step(x)` with next_step bound to
+    # `lambda s: F(s, env)`): the application is the lambda's body with its parameters bound (beta step)
+    if isinstance(n, ast.Call) and isinstance(n.func, ast.Lambda) and not isinstance(node.func, ast.Lambda) and not n.keywords \
+            and not any(isinstance(a, ast.Starred) for a in n.args):
+        la = n.func.args
+        if not (la.vararg or la.kwarg or la.kwonlyargs or la.posonlyargs or la.defaults) and len(la.args) == len(n.args):
+            return subst(n.func.body, {p_.arg: a_ for p_, a_ in zip(la.args, n.args)})
     return n
 
 
